@@ -64,6 +64,29 @@ func NewSys(ics gen.ICSet, trace, lock bool, extra ...mux.Option) *Sys {
 	return s
 }
 
+// NewSysInGroup is NewSys with the router created by Group.New: the group carries other options
+// (another TRACE handler, a URL domain), the router's own options have to win.
+func NewSysInGroup(ics gen.ICSet, trace, lock bool, extra ...mux.Option) *Sys {
+	env := mon.NewEnv()
+	env.RecordMW = false
+	s := &Sys{Env: env, ICS: ics, Trace: true, Lock: lock, Live: map[string]*Entry{}, pcache: map[string]ref.Pattern{}}
+	groupTrace := env.NewHnd(mon.KTrace, "group-level")
+	g := env.NewGroup(mux.WithTrace(groupTrace), mux.WithURLDomain("https://group.example"))
+	o := icOptions(ics)
+	if trace {
+		s.TraceH = env.NewHnd(mon.KTrace, "")
+		o = append(o, mux.WithTrace(s.TraceH))
+	} else {
+		s.TraceH = groupTrace // inherited from the group
+	}
+	if lock {
+		o = append(o, mux.WithLock(true))
+	}
+	o = append(o, extra...)
+	s.R = g.New("r", nil, o...)
+	return s
+}
+
 func (s *Sys) Parse(p string) (ref.Pattern, ref.SyntaxClass) {
 	if pp, ok := s.pcache[p]; ok {
 		return pp, ref.SynOK
